@@ -43,7 +43,7 @@ def main():
         res['applies'] = (rc == 0)
         rc1, o1 = sh('/venv/bin/python %s' % demo, cwd=wt, env=env)
         res['demo_fails_with'] = (rc1 != 0)
-        rc, out = sh('/venv/bin/python -m pytest -q -p no:cacheprovider -x', cwd=wt)
+        rc, out = sh('/venv/bin/python -m pytest -q -p no:cacheprovider -x', cwd=wt, env=env)
         res['tests_pass_with'] = (rc == 0)
         res['tests_tail'] = out.strip().splitlines()[-1] if out.strip() else ''
         res['checks'] = {}
